@@ -674,6 +674,9 @@ int EGLPNUM_TYPENAME_ILLprice_build_pdevex_norms (
 	if (reinit == 0)
 	{
 		pdinfo->ninit = 0;
+		/* the caller's "already built" test looks at norms, which stays NULL
+		 * when there is no nonbasic column */
+		ILL_IFFREE (pdinfo->refframe);
 		pdinfo->norms = EGLPNUM_TYPENAME_EGlpNumAllocArray (lp->nnbasic);
 		ILL_SAFE_MALLOC (pdinfo->refframe, lp->ncols, int);
 	}
@@ -869,6 +872,9 @@ int EGLPNUM_TYPENAME_ILLprice_build_ddevex_norms (
 	if (reinit == 0)
 	{
 		ddinfo->ninit = 0;
+		/* the caller's "already built" test looks at norms, which stays NULL
+		 * when the problem has no rows */
+		ILL_IFFREE (ddinfo->refframe);
 		ddinfo->norms = EGLPNUM_TYPENAME_EGlpNumAllocArray (lp->nrows);
 		ILL_SAFE_MALLOC (ddinfo->refframe, lp->ncols, int);
 	}
